@@ -1,4 +1,5 @@
 import PynProps.C01
 import PynProps.C02
 import PynProps.C03
+import PynProps.C05
 import PynProps.C15
